@@ -164,7 +164,11 @@ func (h *Hub) Run() {
 			update := clientUpdate.update
 			switch update.Type {
 			case ClientSetDisplayNameMessageType:
-				h.state.Players[clientID].Name = update.ClientSetDisplayName()
+				name := update.ClientSetDisplayName()
+				if len(name) > maxWireLen {
+					name = name[:maxWireLen]
+				}
+				h.state.Players[clientID].Name = name
 
 			case ClientSetOrientationMessageType:
 				orientation, err := update.ClientSetOrientation()
@@ -174,7 +178,11 @@ func (h *Hub) Run() {
 					continue
 				}
 
-				h.state.Players[clientID].Representation = orientation.Objects
+				objects := orientation.Objects
+				if len(objects) > maxWireLen {
+					objects = objects[:maxWireLen]
+				}
+				h.state.Players[clientID].Representation = objects
 			case ClientSetSceneMessageType:
 				scene := update.ClientSetSceneData()
 				h.state.WebScene = &scene
